@@ -135,8 +135,10 @@ def _concat_order(repo, rep, fi, want, rule, what):
 
 
 def _fillna(rep, fi, rule):
-    rets = [n for n in ast.walk(fi.node) if isinstance(n, ast.Return)]
-    r = rets[-1].value
+    from ..astutil import returns as _rets
+    rr = _rets(fi.node)
+    rets = [x[0] for x in rr]
+    r = rr[-1][1]
     if isinstance(r, ast.Call) and isinstance(r.func, ast.Attribute) and r.func.attr == "fillna" and r.args and \
             isinstance(r.args[0], ast.Constant) and r.args[0].value in (0, 0.0):
         rep.ok(rule, f"{fi.file}:{rets[-1].lineno} {fi.short}", unparse(rets[-1]), "masked-out bins become zero")
@@ -171,7 +173,8 @@ def ptm5_rule(repo, rep):
     # regrid only when the cutoff is not a grid frequency
     ok = False
     for n in ast.walk(fi.node):
-        if isinstance(n, ast.If) and "len(freqs) > " in unparse(n.test) and any(isinstance(c, ast.Call) and call_name(c) == "regrid_spec" for c in ast.walk(n)):
+        if isinstance(n, ast.If) and isinstance(n.test, ast.Compare) and isinstance(n.test.ops[0], ast.Gt) and unparse(n.test.left).startswith("len(") \
+                and ".freq.size" in unparse(n.test.comparators[0]) and any(isinstance(c, ast.Call) and call_name(c) == "regrid_spec" for c in ast.walk(n)):
             ok = True
     if ok:
         rep.ok("R-C09-3", f"{fi.file} ptm5", "regrid_spec only when fcut adds a frequency", "on-grid cutoffs leave the input untouched")
@@ -185,9 +188,17 @@ def bbox_rule(repo, rep):
     # (d) defaults
     want = {"fmin": ("freq", "min"), "fmax": ("freq", "max"), "dmin": ("dir", "min"), "dmax": ("dir", "max")}
     seen = set()
+    role_of = {}
     for n in ast.walk(fi.node):
-        if isinstance(n, ast.Assign) and isinstance(n.targets[0], ast.Name) and n.targets[0].id in want:
-            k = n.targets[0].id
+        if isinstance(n, ast.Assign) and isinstance(n.targets[0], ast.Name):
+            keys = [repo.const(fi.module, c.args[0]) for c in ast.walk(n.value) if isinstance(c, ast.Call) and isinstance(c.func, ast.Attribute)
+                    and c.func.attr == "get" and c.args]
+            keys += [repo.const(fi.module, c.slice) for c in ast.walk(n.value) if isinstance(c, ast.Subscript) and isinstance(repo.const(fi.module, c.slice), str)]
+            keys = [k for k in keys if k in want]
+            if not keys:
+                continue
+            k = keys[0]
+            role_of[n.targets[0].id] = k
             v = n.value
             exprs = []
             chain = v.values if isinstance(v, ast.BoolOp) and isinstance(v.op, ast.Or) else [v]
@@ -239,8 +250,7 @@ def bbox_rule(repo, rep):
                         nm = unparse(exc.func) if isinstance(exc, ast.Call) else unparse(exc)
                         if nm == "ValueError" and any(isinstance(c, ast.Call) and call_name(c) == "is_overlap" for c in ast.walk(n)):
                             raise_node = n
-        if isinstance(n, ast.Call) and isinstance(n.func, ast.Attribute) and n.func.attr == "where" and mask_node is None and \
-                isinstance(n.func.value, ast.Name) and n.func.value.id == "ds":
+        if isinstance(n, ast.Call) and isinstance(n.func, ast.Attribute) and n.func.attr == "where" and mask_node is None:
             mask_node = n
     if raise_node is None:
         rep.fail("R-C09-2", fi.file, fi.node.lineno, fi.qualname, "overlap check", "overlapping boxes must be rejected with ValueError for EVERY pair of boxes")
@@ -248,85 +258,161 @@ def bbox_rule(repo, rep):
         rep.fail("R-C09-2", fi.file, raise_node.lineno, fi.qualname, "overlap check after masking", "the overlap check must precede the construction of the partitions")
     else:
         rep.ok("R-C09-2", f"{fi.file}:{raise_node.lineno} bbox", "for r1, r2 in combinations(rectangles, 2): if is_overlap: raise ValueError", "all pairs, before masking")
-    # (b) mask = four closed comparisons
+    # (b) mask = four closed comparisons (names mapped to roles through rectangles.append([...]) and the unpacking)
+    order = None
     for n in ast.walk(fi.node):
-        if isinstance(n, ast.Assign) and isinstance(n.targets[0], ast.Name) and n.targets[0].id == "mask":
-            cmps = [c for c in ast.walk(n.value) if isinstance(c, ast.Compare)]
-            got = sorted((unparse(c.left).split(".")[-1], type(c.ops[0]).__name__, unparse(c.comparators[0])) for c in cmps)
-            need = sorted([("freq", "GtE", "fmin"), ("freq", "LtE", "fmax"), ("dir", "GtE", "dmin"), ("dir", "LtE", "dmax")])
-            ors = [b for b in ast.walk(n.value) if isinstance(b, ast.BinOp) and isinstance(b.op, ast.BitOr)]
-            if got != need or ors:
-                rep.fail("R-C09-2", fi.file, n.lineno, fi.qualname, unparse(n)[:160],
-                         "a box holds exactly the bins with fmin <= freq <= fmax and dmin <= dir <= dmax (closed on all four sides)")
-            else:
-                rep.ok("R-C09-2", f"{fi.file}:{n.lineno} bbox", unparse(n.value)[:110], "four closed comparisons, conjoined")
-    # (c) remainder
-    txt = unparse(fi.node)
-    if "masks = masks | mask" in txt and "ds.where(~masks)" in txt:
-        rep.ok("R-C09-2", f"{fi.file} bbox", "ds.where(~(m1 | ... | mn)) appended last", "remainder = complement of the union")
+        if isinstance(n, ast.Call) and isinstance(n.func, ast.Attribute) and n.func.attr == "append" and n.args and isinstance(n.args[0], (ast.List, ast.Tuple)) \
+                and len(n.args[0].elts) == 4 and all(isinstance(e, ast.Name) and e.id in role_of for e in n.args[0].elts):
+            order = [role_of[e.id] for e in n.args[0].elts]
+    if order is None:
+        raise AnalysisError("bbox: rectangles.append([fmin, dmin, fmax, dmax]) not found")
+    found_mask = False
+    for n in ast.walk(fi.node):
+        if isinstance(n, ast.For) and isinstance(n.target, ast.Name):
+            unp = [s_ for s_ in n.body if isinstance(s_, ast.Assign) and isinstance(s_.targets[0], ast.Tuple) and len(s_.targets[0].elts) == 4
+                   and isinstance(s_.value, ast.Name) and s_.value.id == n.target.id]
+            if not unp:
+                continue
+            role2 = {e.id: order[i] for i, e in enumerate(unp[0].targets[0].elts) if isinstance(e, ast.Name)}
+            for s_ in n.body:
+                if isinstance(s_, ast.Assign) and len([c for c in ast.walk(s_.value) if isinstance(c, ast.Compare)]) == 4:
+                    found_mask = True
+                    cmps = [c for c in ast.walk(s_.value) if isinstance(c, ast.Compare)]
+                    got = sorted((unparse(c.left).split(".")[-1], type(c.ops[0]).__name__, role2.get(unparse(c.comparators[0]), unparse(c.comparators[0]))) for c in cmps)
+                    need = sorted([("freq", "GtE", "fmin"), ("freq", "LtE", "fmax"), ("dir", "GtE", "dmin"), ("dir", "LtE", "dmax")])
+                    ors = [b_ for b_ in ast.walk(s_.value) if isinstance(b_, ast.BinOp) and isinstance(b_.op, ast.BitOr)]
+                    if got != need or ors:
+                        rep.fail("R-C09-2", fi.file, s_.lineno, fi.qualname, unparse(s_)[:160],
+                                 "a box holds exactly the bins with fmin <= freq <= fmax and dmin <= dir <= dmax (closed on all four sides)")
+                    else:
+                        rep.ok("R-C09-2", f"{fi.file}:{s_.lineno} bbox", unparse(s_.value)[:110], "four closed comparisons, conjoined")
+    if not found_mask:
+        raise AnalysisError("bbox: box mask not found")
+    # (c) remainder: where(~union) with union accumulated by |=
+    union = None
+    for n in ast.walk(fi.node):
+        if isinstance(n, ast.Assign) and isinstance(n.targets[0], ast.Name) and isinstance(n.value, ast.BinOp) and isinstance(n.value.op, ast.BitOr) \
+                and unparse(n.value.left) == n.targets[0].id:
+            union = n.targets[0].id
+        if isinstance(n, ast.AugAssign) and isinstance(n.op, ast.BitOr) and isinstance(n.target, ast.Name):
+            union = n.target.id
+    rem = [n for n in ast.walk(fi.node) if isinstance(n, ast.Call) and isinstance(n.func, ast.Attribute) and n.func.attr == "where" and n.args and
+           isinstance(n.args[0], ast.UnaryOp) and isinstance(n.args[0].op, ast.Invert) and unparse(n.args[0].operand) == union]
+    if union and rem:
+        rep.ok("R-C09-2", f"{fi.file}:{rem[0].lineno} bbox", "ds.where(~(m1 | ... | mn)) appended last", "remainder = complement of the union")
     else:
         rep.fail("R-C09-2", fi.file, fi.node.lineno, fi.qualname, "remainder partition", "the last partition must be the complement of the union of all boxes")
     _fillna(rep, fi, "R-C09-2")
     # is_overlap: rectangles sharing only an edge do not overlap
     io = repo.func("wavespectra.core.utils.is_overlap")
-    tests = [unparse(n.test).replace(" ", "") for n in ast.walk(io.node) if isinstance(n, ast.If)]
-    if tests == ["(r1<=l2)or(r2<=l1)", "(t1<=b2)or(t2<=b1)"] or tests == ["r1<=l2orr2<=l1", "t1<=b2ort2<=b1"]:
-        rep.ok("R-C09-2", f"{io.file}:{io.node.lineno} is_overlap", "; ".join(tests), "separated on either axis -> no overlap")
+    unp = [n for n in ast.walk(io.node) if isinstance(n, ast.Assign) and isinstance(n.targets[0], ast.Tuple) and len(n.targets[0].elts) == 4]
+    if len(unp) != 2:
+        raise AnalysisError("is_overlap: rectangle unpacking not found")
+    pos = {}
+    for k, u in enumerate(unp):
+        for i, e in enumerate(u.targets[0].elts):
+            pos[e.id] = (k, i)          # (rectangle, slot) slot: 0 low-x, 1 low-y, 2 high-x, 3 high-y
+    good = set()
+    for n in ast.walk(io.node):
+        if isinstance(n, ast.Compare) and len(n.ops) == 1 and isinstance(n.ops[0], ast.LtE) and isinstance(n.left, ast.Name) and isinstance(n.comparators[0], ast.Name):
+            a_, b_ = pos.get(n.left.id), pos.get(n.comparators[0].id)
+            if a_ and b_ and a_[0] != b_[0] and a_[1] in (2, 3) and b_[1] == a_[1] - 2:
+                good.add((a_[0], a_[1]))
+    rets = [unparse(n.value) for n in ast.walk(io.node) if isinstance(n, ast.Return)]
+    if good == {(0, 2), (1, 2), (0, 3), (1, 3)} and sorted(rets) == ["False", "False", "True"]:
+        rep.ok("R-C09-2", f"{io.file}:{io.node.lineno} is_overlap", "high edge of one <= low edge of the other, on either axis -> False", "separated (or only touching) rectangles do not overlap")
     else:
-        rep.fail("R-C09-2", io.file, io.node.lineno, io.qualname, "; ".join(tests), "is_overlap must return False exactly when the rectangles are separated along freq or along dir")
+        rep.fail("R-C09-2", io.file, io.node.lineno, io.qualname, f"separating tests found: {sorted(good)}", "is_overlap must return False exactly when the rectangles are separated along freq or along dir")
 
 
 def split_rule(repo, rep):
+    from ..astutil import returns, resolve, terms, factors
     fi = repo.func("wavespectra.specarray.SpecArray._interp_freq")
-    rets = [n for n in ast.walk(fi.node) if isinstance(n, ast.Return)]
-    r = rets[-1].value
+    fint = fi.params[1]
+    rr = returns(fi.node)
+    if len(rr) != 1:
+        raise AnalysisError("_interp_freq: single return expected")
+    r0, r = rr[0]
     if not (isinstance(r, ast.BinOp) and isinstance(r.op, ast.Div)):
         raise AnalysisError("_interp_freq: return is not (left + right) / spacing")
-    div = _resolve(fi, r.right)
-    txt = unparse(div).replace(" ", "")
-    idx = [n.id for n in ast.walk(fi.node) if isinstance(n, ast.Assign) and isinstance(n.value, ast.Call) and
-           isinstance(n.value.func, ast.Attribute) and n.value.func.attr == "searchsorted" for n in n.targets if isinstance(n, ast.Name)]
+    div = resolve(fi.node, r.right, before=r0.lineno + 1)
+    idx = [t.id for n in ast.walk(fi.node) if isinstance(n, ast.Assign) and isinstance(n.value, ast.Call) and
+           isinstance(n.value.func, ast.Attribute) and n.value.func.attr == "searchsorted" for t in n.targets if isinstance(t, ast.Name)]
     if not idx:
         raise AnalysisError("_interp_freq: searchsorted index not found")
     i = idx[0]
+    txt = unparse(div).replace(" ", "")
     uses_both = (f"{i}-1" in txt and (f",{i}]" in txt or f"[{i}]" in txt)) and ("diff" in txt or "-" in txt) and "freq" in txt
     if not uses_both or ".df" in txt or "gradient" in txt:
-        rep.fail("R-C09-4", fi.file, rets[-1].lineno, fi.qualname, f"{unparse(rets[-1])}  with spacing = {unparse(div)[:80]}",
+        rep.fail("R-C09-4", fi.file, r0.lineno, fi.qualname, f"(...) / {unparse(div)[:80]}",
                  "linear interpolation between the two bracketing grid frequencies divides by THEIR spacing f[i] - f[i-1]; another "
                  "width (e.g. the centred df of the grid) makes the weights not sum to one on non-uniform grids")
     else:
-        rep.ok("R-C09-4", f"{fi.file}:{rets[-1].lineno} _interp_freq", f"/ {unparse(div)[:70]}", "spacing of the bracketing nodes")
-    # weights: each sample times the distance to the OPPOSITE node
-    right = _local(fi, "right") and [n for n in ast.walk(fi.node) if isinstance(n, ast.Assign) and isinstance(n.targets[0], ast.Name) and n.targets[0].id == "right"][0].value
-    left = [n for n in ast.walk(fi.node) if isinstance(n, ast.Assign) and isinstance(n.targets[0], ast.Name) and n.targets[0].id == "left"][0].value
-    right = [n for n in ast.walk(fi.node) if isinstance(n, ast.Assign) and isinstance(n.targets[0], ast.Name) and n.targets[0].id == "right"][0].value
-    rt, lt = unparse(right).replace(" ", ""), unparse(left).replace(" ", "")
-    okr = f"isel(freq=[{i}])" in rt and f"(fint-self.freq[{i}-1])" in rt
-    okl = f"isel(freq=[{i}-1])" in lt and f"(self.freq[{i}]-fint)" in lt
-    if okr and okl:
+        rep.ok("R-C09-4", f"{fi.file}:{r0.lineno} _interp_freq", f"/ {unparse(div)[:70]}", "spacing of the bracketing nodes")
+    # numerator: two terms, each = sample at one bracketing node x distance of the cutoff to the OPPOSITE node
+    parts = [resolve(fi.node, t, before=r0.lineno + 1) for t in terms(r.left)]
+    # follow assign_coords relabelling:  x = x.assign_coords(...) keeps the value
+    def strip_relabel(e, depth=0):
+        while depth < 4 and isinstance(e, ast.Call) and isinstance(e.func, ast.Attribute) and e.func.attr == "assign_coords":
+            inner = e.func.value
+            if isinstance(inner, ast.Name):
+                cands = [a_ for a_ in ast.walk(fi.node) if isinstance(a_, ast.Assign) and isinstance(a_.targets[0], ast.Name) and a_.targets[0].id == inner.id
+                         and not (isinstance(a_.value, ast.Call) and isinstance(a_.value.func, ast.Attribute) and a_.value.func.attr == "assign_coords")]
+                if not cands:
+                    break
+                e = cands[0].value
+            else:
+                e = inner
+            depth += 1
+        return e
+    parts = [strip_relabel(p_) for p_ in parts]
+    seen = set()
+    okw = len(parts) == 2
+    for p_ in parts:
+        t = unparse(p_).replace(" ", "")
+        if f"isel(freq=[{i}])" in t and (f"({fint}-self.freq[{i}-1])" in t):
+            seen.add("upper")
+        elif f"isel(freq=[{i}-1])" in t and (f"(self.freq[{i}]-{fint})" in t):
+            seen.add("lower")
+        else:
+            okw = False
+    if okw and seen == {"upper", "lower"}:
         rep.ok("R-C09-4", f"{fi.file} _interp_freq", "E[i]*(f - f[i-1]) + E[i-1]*(f[i] - f)", "each node weighted by the distance to the opposite node")
     else:
-        rep.fail("R-C09-4", fi.file, fi.node.lineno, fi.qualname, f"right = {unparse(right)[:70]}; left = {unparse(left)[:70]}",
+        rep.fail("R-C09-4", fi.file, fi.node.lineno, fi.qualname, " + ".join(unparse(p_)[:60] for p_ in parts),
                  "each bracketing sample must be weighted by the distance from the cutoff to the OPPOSITE node")
     # split: label slicing + guarded insertions on the correct side; invalid limits raise ValueError first
     sp = repo.func("wavespectra.specarray.SpecArray.split")
     body = sp.node.body
-    first_data = next((s for s in body if isinstance(s, ast.Assign)), None)
-    raises = [s for s in body if isinstance(s, ast.If) and any(isinstance(x, ast.Raise) for x in s.body)]
-    if len(raises) < 2 or any(r.lineno > first_data.lineno for r in raises):
+    first_data = next((s_ for s_ in body if isinstance(s_, ast.Assign)), None)
+    raises = [s_ for s_ in body if isinstance(s_, ast.If) and any(isinstance(x, ast.Raise) for x in s_.body)]
+    if len(raises) < 2 or any(r_.lineno > first_data.lineno for r_ in raises):
         rep.fail("R-C09-4", sp.file, sp.node.lineno, sp.qualname, "limit validation", "fmax <= fmin and dmax <= dmin must be rejected before any slicing")
     else:
-        rep.ok("R-C09-4", f"{sp.file}:{raises[0].lineno} split", "; ".join(unparse(r.test) for r in raises), "validated before slicing")
-    txt = unparse(sp.node).replace(" ", "")
-    ok_lo = "xr.concat([self._interp_freq(fmin),other]" in txt
-    ok_hi = "xr.concat([other,self._interp_freq(fmax)]" in txt
-    if ok_lo and ok_hi and "sel(freq=slice(fmin,fmax))" in txt:
+        rep.ok("R-C09-4", f"{sp.file}:{raises[0].lineno} split", "; ".join(unparse(r_.test) for r_ in raises), "validated before slicing")
+    sides = {}
+    for c in ast.walk(sp.node):
+        if isinstance(c, ast.Call) and call_name(c) in ("xr.concat", "xarray.concat") and c.args and isinstance(c.args[0], (ast.List, ast.Tuple)) and len(c.args[0].elts) == 2:
+            for k, e in enumerate(c.args[0].elts):
+                if isinstance(e, ast.Call) and call_name(e) == "self._interp_freq" and e.args:
+                    sides[unparse(e.args[0])] = k
+    label_slice = any(isinstance(c, ast.Call) and isinstance(c.func, ast.Attribute) and c.func.attr == "sel" and
+                      any(k.arg == "freq" and isinstance(k.value, ast.Call) and call_name(k.value) == "slice" and
+                          [unparse(a_) for a_ in k.value.args] == ["fmin", "fmax"] for k in c.keywords) for c in ast.walk(sp.node))
+    if sides == {"fmin": 0, "fmax": 1} and label_slice:
         rep.ok("R-C09-4", f"{sp.file} split", "sel(freq=slice(fmin, fmax)); interpolated bins prepended at fmin / appended at fmax", "band kept unchanged, cutoffs inserted on the right side")
     else:
-        rep.fail("R-C09-4", sp.file, sp.node.lineno, sp.qualname, "band slicing", "the band must be a label slice with the interpolated fmin bin in front and the fmax bin behind")
+        rep.fail("R-C09-4", sp.file, sp.node.lineno, sp.qualname, f"band slicing (insert positions {sides})", "the band must be a label slice with the interpolated fmin bin in front and the fmax bin behind")
     st = repo.func("wavespectra.specarray.SpecArray.stats")
-    t = unparse(st.node).replace(" ", "")
-    if "ifany((fmin,fmax,dmin,dmax)):spectra=self.split(fmin=fmin,fmax=fmax,dmin=dmin,dmax=dmax)" in t.replace("\n", ""):
+    ok = False
+    for n in ast.walk(st.node):
+        if isinstance(n, ast.If) and isinstance(n.test, ast.Call) and call_name(n.test) == "any":
+            names = sorted(x.id for x in ast.walk(n.test) if isinstance(x, ast.Name) and x.id != "any")
+            calls = [c for c in ast.walk(n) if isinstance(c, ast.Call) and call_name(c) == "self.split"]
+            if names == ["dmax", "dmin", "fmax", "fmin"] and calls and n.body and any(c in list(ast.walk(n.body[0])) for c in calls):
+                kws = {k.arg: unparse(k.value) for k in calls[0].keywords}
+                ok = all(kws.get(x) == x for x in names)
+    if ok:
         rep.ok("R-C09-4", f"{st.file} stats", "limits -> self.split(...)", "statistics with limits are statistics of the explicitly split spectrum")
     else:
         rep.fail("R-C09-4", st.file, st.node.lineno, st.qualname, "stats(fmin..dmax)", "statistics called with limits must be computed on self.split(same limits)")
